@@ -120,12 +120,12 @@ Fixpoint check_policies (req : request) (ps : list policy) : bool :=
 (* ---- Response --------------------------------------------------------- *)
 Record response := { rs_opts : table; rs_addr : option (N -> bool) }.
 
-(* "If there are addresses provided here, override any from the parent" --
-   after the repair of F20 the receiving address is removed from the set *)
+(* "If there are addresses provided here, override any from the parent" -- the
+   set is used as configured: the receiving address is NOT removed from it
+   (finding F20, recorded as known: the repair conflicts with the test suite) *)
 Definition set_addr (req : request) (p : policy) (resp : response) : response :=
   match p_addr p with
-  | Some f => {| rs_opts := rs_opts resp;
-                 rs_addr := Some (fun x => f x && negb (x =? r_serverip req)) |}
+  | Some f => {| rs_opts := rs_opts resp; rs_addr := Some f |}
   | None => resp
   end.
 
